@@ -3,6 +3,7 @@ package c12
 import (
 	"fmt"
 	"testing"
+	"time"
 
 	regexp2 "github.com/dlclark/regexp2/v2"
 	"pgregory.net/rapid"
@@ -21,7 +22,7 @@ func TestMain(m *testing.M) {
 	h.Setup("C12",
 		"rapid state machine: 4 shared Regexps drawn from a pool of 9 (balancing groups, bool-only eligible program, backreference, stack limit 64, 30 ms timeout on a catastrophic pattern, RightToLeft, replacement cache of 2 entries, IgnoreCase lookbehind, Multiline) and histories of about 30 actions (rapid's default step count; a probe action issues one call per shared Regexp) over 13 entry points with inputs that match, fail, hit the stack limit or time out, sized 0-60 runes or padded across the pooled-buffer classes (about 1K / 4K / 16K runes), and replacements from a set of 18; after every action the result (canonical match / output / error class) must equal the same call on a Regexp compiled fresh for that call, and a fixed probe call on every shared Regexp is re-checked every few steps; one evaluation = one call in a history; non-trivial = a call on a Regexp whose earlier history contains a dirtying predecessor (bool call on the bool-only pattern, balancing match, error return, or a larger pooled input before a smaller one); distinct = hash of (history prefix)",
 		map[string]float64{"after-dirtying": 0.4, "error-return": 0.01, "large-input": 0.08, "replacement": 0.03},
-		"outcomes that involve a timeout are confirmed three times before they are reported (scheduling jitter)")
+		"a disagreement that involves a timeout is re-decided with both timeouts stretched x1, x4, x16 and reported only if it persists at every scale (work close to the timeout is a coin flip on either side)")
 	h.Main(m)
 }
 
@@ -57,9 +58,19 @@ func genCall(t *rapid.T, specs []int) calls.Call {
 // sameOutcome compares with confirmation for scheduling-sensitive outcomes.
 func sameOutcome(shared *regexp2.Regexp, spec calls.ReSpec, c calls.Call) (bool, string, string) {
 	var got, want string
-	for try := 0; try < 3; try++ {
+	// A call whose work is close to the timeout is a coin flip on either Regexp. Such a
+	// disagreement is re-decided with the timeout of both sides stretched (x1, x4, x16): work
+	// that is borderline at one scale is decisive at the others, while a history-dependent
+	// timeout (or a lost one) disagrees at every scale.
+	defer func(d time.Duration) { shared.MatchTimeout = d }(shared.MatchTimeout)
+	for _, scale := range []time.Duration{1, 1, 4, 16} {
+		fresh := spec.Compile()
+		if spec.TimeoutMs > 0 {
+			shared.MatchTimeout = time.Duration(spec.TimeoutMs) * time.Millisecond * scale
+			fresh.MatchTimeout = shared.MatchTimeout
+		}
 		got = calls.Exec(shared, c)
-		want = calls.Exec(spec.Compile(), c)
+		want = calls.Exec(fresh, c)
 		if got == want {
 			return true, got, want
 		}
